@@ -882,6 +882,14 @@ def rule_t3(chk: Check, C: Classes):
 
 
 # ------------------------------------------------------------------------------------------------ T5 / T6: finite-domain evaluation
+# methods of built-in immutable values (str, bytes, tuple, re.Match / re.Pattern) and the in-place methods of containers the evaluated
+# code itself creates: calling them runs no repository code
+PURE_METHODS = {"add", "update", "union", "append", "extend", "match", "fullmatch", "search", "groups", "group", "span", "end", "start",
+                "encode", "decode", "lower", "upper", "strip", "lstrip", "rstrip", "startswith", "endswith", "isdigit", "isalpha",
+                "isspace", "isidentifier", "isascii", "join", "split", "replace", "find", "rfind", "index", "count", "get", "items", "keys",
+                "values", "pop", "copy", "format", "partition", "rpartition", "splitlines", "removeprefix", "removesuffix", "casefold"}
+
+
 class _Ret(Exception):
     def __init__(self, v):
         self.v = v
@@ -924,7 +932,7 @@ def _mini_eval(fn: ast.FunctionDef, env: dict, allowed_calls: set[str], max_step
                 name = f.attr if isinstance(f, ast.Attribute) else (f.id if isinstance(f, ast.Name) else None)
                 if local_calls and isinstance(f, ast.Name) and f.id in env:
                     continue    # a callable the rule itself handed in (or one bound from it)
-                if name not in allowed_calls and name not in SAFE and name not in ("add", "update", "union", "append", "extend"):
+                if name not in allowed_calls and name not in SAFE and name not in PURE_METHODS:
                     raise EvalError(f"call `{norm_stmt(f)}` outside the evaluable subset")
             elif isinstance(n, (ast.Lambda, ast.Yield, ast.YieldFrom, ast.Await)):
                 raise EvalError(type(n).__name__)
@@ -938,7 +946,9 @@ def _mini_eval(fn: ast.FunctionDef, env: dict, allowed_calls: set[str], max_step
         except (EvalError, Marker):
             raise
         except Exception as ex:
-            raise Crash(f"{type(ex).__name__}: {ex}")
+            c = Crash(f"{type(ex).__name__}: {ex}")
+            c.orig = ex
+            raise c
 
     def store(t, v):
         if isinstance(t, ast.Name):
@@ -1036,6 +1046,31 @@ def _mini_eval(fn: ast.FunctionDef, env: dict, allowed_calls: set[str], max_step
             elif isinstance(st, ast.Try) and not st.handlers and not st.orelse:
                 try:
                     run(st.body)
+                finally:
+                    run(st.finalbody)
+            elif isinstance(st, ast.Try) and not st.orelse:
+                EXC = {"SyntaxError": SyntaxError, "ValueError": ValueError, "TypeError": TypeError, "KeyError": KeyError,
+                       "IndexError": IndexError, "AttributeError": AttributeError, "Exception": Exception, "StopIteration": StopIteration,
+                       "UnicodeError": UnicodeError, "OverflowError": OverflowError, "MemoryError": MemoryError}
+                try:
+                    try:
+                        run(st.body)
+                    except Crash as c:
+                        orig = getattr(c, "orig", None)
+                        handled = False
+                        for h in st.handlers:
+                            names = [h.type] if not isinstance(h.type, ast.Tuple) else list(h.type.elts)
+                            types_ = tuple(EXC[n.id] for n in names if isinstance(n, ast.Name) and n.id in EXC) if h.type is not None else (Exception,)
+                            if h.type is not None and len(types_) != len(names):
+                                raise EvalError("exception class outside the evaluable subset")
+                            if orig is not None and isinstance(orig, types_):
+                                if h.name:
+                                    env[h.name] = orig
+                                run(h.body)
+                                handled = True
+                                break
+                        if not handled:
+                            raise
                 finally:
                     run(st.finalbody)
             elif isinstance(st, ast.Return):
@@ -1435,3 +1470,31 @@ def eval_memoize(wrapper: ast.FunctionDef, verbose: bool, succeeds: bool, args: 
     before = st["runs"]
     t2 = call()
     return tree, end, entry, (st["runs"] - before, t2 == tree, st["pos"] == end), me._level
+
+
+def module_pure_constants(rel: str) -> dict:
+    """Module-level names bound once to a literal or to `re.compile(<literal>[, flags])` — values a helper may name."""
+    import re as _re
+    out: dict = {}
+    mod = _parse(rel)
+    for st in mod.body:
+        tgt = val = None
+        if isinstance(st, ast.Assign) and len(st.targets) == 1 and isinstance(st.targets[0], ast.Name):
+            tgt, val = st.targets[0].id, st.value
+        elif isinstance(st, ast.AnnAssign) and isinstance(st.target, ast.Name) and st.value is not None:
+            tgt, val = st.target.id, st.value
+        if tgt is None:
+            continue
+        try:
+            out[tgt] = ast.literal_eval(val)
+            continue
+        except Exception:
+            pass
+        if isinstance(val, ast.Call) and norm_stmt(val.func) in ("re.compile", "_re.compile") and val.args and not val.keywords:
+            try:
+                args = [ast.literal_eval(a) if not (isinstance(a, ast.Attribute) and norm_stmt(a).startswith(("re.", "_re."))) else getattr(_re, a.attr)
+                        for a in val.args]
+                out[tgt] = _re.compile(*args)
+            except Exception:
+                continue
+    return out
